@@ -79,6 +79,8 @@ func C01(c *Ctx) {
 	c.wrapperRule("C01-6")
 	c.typecastPointerRule()
 	c.importKeyRule("C01-9")
+	c.typeNameRule("C01-10")
+	c.importTableRule("C01-11")
 }
 
 // wrapperRule: wrappers never surround nodes that may return (value, error).
